@@ -3,7 +3,7 @@ package main
 import (
 	"fmt"
 	"os"
-	"time"
+	"strings"
 
 	"verifharness/internal/cluster"
 	"verifharness/internal/ev"
@@ -12,22 +12,66 @@ import (
 func main() {
 	dir := ev.TempDir("probe")
 	defer os.RemoveAll(dir)
-	t0 := time.Now()
 	c, err := cluster.Start(dir, 1, 3, cluster.Options{})
 	if err != nil {
 		fmt.Println("start:", err)
 		os.Exit(1)
 	}
 	defer c.Close()
-	fmt.Println("started in", time.Since(t0))
-	r, err := c.Query(0, "", "CREATE DATABASE db0 WITH REPLICATION 2 SHARD DURATION 1h", nil)
-	fmt.Println(r, err)
-	st, body, err := c.Write(1, "db0", "", "all", "ns", []byte("cpu,host=a f=1 1000\ncpu,host=b f=2 3600000000001\n"))
-	fmt.Println(st, body, err)
-	for i := 0; i < 3; i++ {
-		r, err = c.Query(i, "db0", "SELECT * FROM cpu", nil)
-		fmt.Printf("%d %+v %v\n", i, r, err)
+	c.Query(0, "", "CREATE DATABASE db0 WITH REPLICATION 1 SHARD DURATION 1h", nil)
+	c.WaitMetaIndex(cluster.DefaultWait)
+	var b strings.Builder
+	t0 := int64(1700000000) * 1e9
+	n := 0
+	for k := 0; k < 600; k++ {
+		host := []string{"a", "b", "c"}[k%3]
+		region := []string{"x", "y", ""}[(k/3)%3]
+		tags := "host=" + host
+		if region != "" {
+			tags += ",region=" + region
+		}
+		fields := fmt.Sprintf("i=%di", k)
+		if k%4 == 0 {
+			fields += fmt.Sprintf(",s=\"s%d\"", k)
+		}
+		if k%5 == 0 {
+			fields += ",b=true"
+		}
+		fmt.Fprintf(&b, "cpu,%s %s %d\n", tags, fields, t0+int64(k)*36e9)
+		n++
 	}
-	r, _ = c.Query(0, "db0", "SHOW SHARDS", nil)
-	fmt.Printf("%+v\n", r)
+	st, body, err := c.Write(0, "db0", "", "all", "ns", []byte(b.String()))
+	fmt.Println("write", st, body, err)
+	qs := []string{
+		"SELECT count(b) FROM cpu WHERE host = 'c' AND region = 'x'",
+		"SELECT count(i) FROM cpu WHERE host = 'c' AND region = 'x'",
+		"SELECT count(s) FROM cpu WHERE host = 'b' AND region = 'x'",
+		"SELECT first(s) FROM cpu WHERE host = 'b' AND region = 'x' GROUP BY time(1h), region fill(none)",
+		"SELECT count(b) FROM cpu WHERE host = 'c'",
+		"SELECT count(b) FROM cpu",
+	}
+	bad := 0
+	for rep := 0; rep < 300; rep++ {
+		for i := 0; i < 3; i++ {
+			q := fmt.Sprintf("SELECT count(i) FROM cpu WHERE host = '%s' AND region = '%s' GROUP BY time(30m) fill(none)", []string{"a", "b", "c"}[rep%3], []string{"x", "y"}[rep%2])
+			r, err := c.Query(i, "db0", q, nil)
+			if err != nil || len(r.Results) != 1 || len(r.Results[0].Series) == 0 {
+				bad++
+				fmt.Printf("EMPTY node%d rep%d %s => %+v %v\n", i, rep, q, r, err)
+			}
+		}
+	}
+	fmt.Println("bad", bad)
+	for _, q := range qs {
+		for rep := 0; rep < 1; rep++ {
+			for i := 0; i < 3; i++ {
+				r, err := c.Query(i, "db0", q, nil)
+				s := fmt.Sprintf("%+v", r.Results)
+				if len(s) > 150 {
+					s = s[:150]
+				}
+				fmt.Printf("node%d rep%d %s => %s %v\n", i, rep, q, s, err)
+			}
+		}
+	}
 }
